@@ -395,9 +395,20 @@ impl SecondaryStorage {
     /// Wait until the compaction that may currently be running on any table has finished: take
     /// (and release) the per-table lock that the compactor holds while it works on a table.
     pub async fn verif_quiesce(&self) {
-        let ids: Vec<u32> = self.tables.read().keys().map(|k| k.table_id).collect();
-        for id in ids {
-            drop(self.txn_mgr.lock_for_deletion(id).await);
+        // A pass works on one table after the other without yielding in between, so it is over
+        // once a whole round over the tables finds none of their locks taken.
+        loop {
+            let ids: Vec<u32> = self.tables.read().keys().map(|k| k.table_id).collect();
+            let mut contended = false;
+            for id in ids {
+                if self.txn_mgr.try_lock_for_compaction(id).is_none() {
+                    contended = true;
+                    drop(self.txn_mgr.lock_for_deletion(id).await);
+                }
+            }
+            if !contended {
+                break;
+            }
         }
     }
 }
